@@ -32,6 +32,18 @@ claimed={
 "C05":dict(level_text="Coq proof that the extracted parameter table of an operation equals the declared input list computed straight from the OpenAPI document (operation parameters, unshadowed path-item parameters, flattened body properties with requiredness taken from the declaring allOf member and nullability) — same names, locations and requiredness, none dropped or duplicated — and that sorting only permutes it. Tied to the real extractor on every generated spec; direct oracle recomputes the declared inputs in Rust.",
   design_ref="DESIGN.md 7 (C05)",
   note="Trusted as C08. Positional-vs-struct arguments and setters of the emitted interface are tied at the emission level (notes)."),
+"C18":dict(level_text="Coq proof that the derive attribute emitted by all four generators (struct, enum, newtype, request struct) is `built-ins [, Default] ++ every user derive that tokenises, trimmed, in order, duplicates kept`, that inserting a derive adds exactly its text at that position, and that an un-tokenisable string changes nothing else. The emission model (Emit.v) is tied to the real CLI by byte equality of EVERY emitted file of ~650 generated crates per run (after the same syn+prettyplease pass), with derive lists over simple/nested/padded/duplicate/un-tokenisable strings passed through the real --derive flag; a syn-based oracle reads every derive list back.",
+  design_ref="DESIGN.md 7 (C18)",
+  note="Trusted: `tokenizable` (balanced brackets, no quote/backslash characters) stands for str::parse::<TokenStream>() on the derive strings used; syn/prettyplease applied identically to both sides."),
+"C17":dict(level_text="Coq proof of the composition of an operation's documentation (summary, description unless empty/equal, external-docs sentence; Spec method_doc_spec) and of its placement: the doc attribute heads exactly the client method / struct / enum / field it belongs to and its literal VALUE is the trimmed text. Whole-file equality with the real CLI on adversarial documentation (quotes, backslashes, */, braces, blank lines, CRLF, non-ASCII, text equal to or extending the summary); syn-based oracle reads every #[doc] back.",
+  design_ref="DESIGN.md 7 (C17)",
+  note="Partial for `does not corrupt the file`: escaping is proc_macro2::Literal::string and printing is prettyplease (which strips trailing spaces of doc lines); validated by parse-back, not proved. Trim is modelled for ASCII white space."),
+"C15":dict(level_text="Coq proof that one server gives that URL verbatim, none gives the BaseUrl strategy, and that the variable the generated client reads equals <SERVICE>_BASE_URL / <SERVICE>_ENV as documented by hir::ServerStrategy (words of `svc var` = words of svc ++ words of var). Several servers select <SERVICE>_ENV only with distinct recognised keywords: refuted in Coq otherwise, open known finding. HirSpec servers and lib.rs compared with the real code on every generated crate.",
+  design_ref="DESIGN.md 7 (C15)",
+  note="Trusted: convert_case model (tied by C13/C06 correspondence)."),
+"C14":dict(level_text="Coq proof that every request module passes the request through `authenticate` iff security is declared, of the placement call emitted per location kind, of what the extractor makes of each scheme kind, and that from_env constructs the variant of the FIRST strategy reading each credential from <SERVICE>_<NAME> (= SCREAMING(service)_SCREAMING(name)). lib.rs and every request module compared byte for byte with the real CLI over apiKey header/query/cookie, http bearer/basic, oauth2, anonymous-first requirement lists and awkward scheme names; syn-based oracle checks enum / match arms / from_env agreement.",
+  design_ref="DESIGN.md 7 (C14)",
+  note="The meaning of httpclient's header/query/cookie/bearer_auth/basic_auth builder calls is modelled (the crate is not available offline)."),
 }
 m={"version":1,
  "setup_cmd":"./setup.sh",
